@@ -23,17 +23,27 @@ A store or a scan that leaves the modelled memory yields `Err.outOfBounds`
 (undefined behaviour in C); the theorems show the stores never do and say
 exactly when the scans do not.
 
+The tests `n > ct_length`, `n != ct_length`, the `+ 1` of get_new_array_length, the window
+and branch tests of b_string and its loop conditions are taken from `Generated/CharExprs.lean`
+(re-extracted from the C source on every check run; `Proofs/CharArray.lean` proves what they mean).
+
 Not modelled: `_Bool[]` initialised from bytes (`must_be_array_of_zero_or_one`),
 list/tuple initialisers (C20), `ffi.string` on non-character cdata.
 -/
 import CffiVerif.Model.Utf16
 namespace CffiVerif.CharArray
-open CffiVerif.Utf16
+open CffiVerif.Utf16 CffiVerif.Generated.CharExprs
 
 /-- `ctitem->ct_size` of the character item. -/
 inductive Width
   | w1 | w2 | w4
   deriving DecidableEq, Repr
+
+/-- `ctitem->ct_size` as a number. -/
+def Width.bytes : Width → Nat
+  | .w1 => 1
+  | .w2 => 2
+  | .w4 => 4
 
 /-- The Python initialiser: `bytes` (a list of byte values) or `str` (code points). -/
 inductive PyVal
@@ -54,22 +64,25 @@ def unitsOf : Width → PyVal → Except Err Units
 /-- `get_new_array_length` (the type of the initialiser is *not* checked here:
 a `str` for `char[]` is measured with `_my_PyUnicode_SizeAsChar32`). -/
 def newArrayLength (w : Width) : PyVal → Nat
-  | .bytes b => b.length + 1
-  | .str s => (if w = Width.w2 then size16 s else size32 s) + 1
+  | .bytes b => nalBytes b.length                                   -- PyBytes_GET_SIZE(value) + 1
+  | .str s => nalUnicode (if nalUse16 w.bytes then size16 s else size32 s)   -- length + 1
 
 /-- Storing `out` at the start of the array `mem`. -/
 def store (mem : Units) (out : Units) : Except Err Units :=
   if out.length ≤ mem.length then .ok (out ++ mem.drop out.length) else .error .outOfBounds
 
+/-- `ct->ct_length` as the C integer: `-1` for `T[]`. -/
+def ctLengthInt : Option Nat → Int
+  | some len => (len : Int)
+  | none => -1
+
 /-- `ct->ct_length >= 0 && n > ct->ct_length` -/
 def tooLong (ctLength : Option Nat) (n : Nat) : Bool :=
-  match ctLength with
-  | some len => decide (n > len)
-  | none => false
+  caTooLong (n : Int) (ctLengthInt ctLength)
 
 /-- `if (n != ct->ct_length) n++;`  (`ct_length = -1` for `T[]`). -/
 def bump (ctLength : Option Nat) (n : Nat) : Nat :=
-  if ctLength = some n then n else n + 1
+  if caAddNul (n : Int) (ctLengthInt ctLength) then n + 1 else n
 
 /-- `convert_array_from_object(data, ct, init)` for a character item type;
 `ctLength = none` is `T[]` (`ct_length < 0`).  Result: the new contents of the array. -/
@@ -107,20 +120,23 @@ def newFixed (w : Width) (len : Nat) (init : PyVal) : Except Err Units :=
 def scanUnbounded : Units → Except Err Nat
   | [] => .error .outOfBounds
   | u :: rest =>
-    if u = 0 then .ok 0
-    else match scanUnbounded rest with
+    if scanGoUnbounded u then
+      match scanUnbounded rest with
       | .ok k => .ok (k + 1)
       | .error e => .error e
+    else .ok 0
 
-/-- `length = 0; while (length < maxlen && start[length]) length++;` -/
-def scanLoop : Units → Nat → Except Err Nat
-  | _, 0 => .ok 0
-  | [], _ + 1 => .error .outOfBounds
-  | u :: rest, m + 1 =>
-    if u = 0 then .ok 0
-    else match scanLoop rest m with
-      | .ok k => .ok (k + 1)
-      | .error e => .error e
+/-- `while (length < maxlen && start[length]) length++;` from the current `length` on, `rest` being the
+memory from `start + length`; the `&&` short-circuits, so `start[length]` is read only inside the window. -/
+def scanLoopFrom (maxlen : Nat) : Units → Nat → Except Err Nat
+  | [], length => if scanInWindow length maxlen then .error .outOfBounds else .ok length
+  | u :: rest, length =>
+    if scanInWindow length maxlen && scanNonZero u then scanLoopFrom maxlen rest (length + 1)
+    else .ok length
+
+/-- `maxlen = length; length = 0; while (length < maxlen && start[length]) length++;` -/
+def scanLoop (mem : Units) (maxlen : Nat) : Except Err Nat :=
+  scanLoopFrom maxlen mem 0
 
 /-- `end = memchr(start, 0, length); if (end != NULL) length = end - start;`
 (memchr reads sequentially and stops at the first match, C11 7.24.5.1). -/
@@ -132,18 +148,18 @@ def scanMemchr (mem : Units) (length : Nat) : Except Err Nat :=
 
 /-- The units `ffi.string` converts: `length = none` is a pointer without `maxlen`. -/
 def cstringUnits (w : Width) (mem : Units) (length : Option Nat) : Except Err Units :=
-  let n := match length with
-    | none => scanUnbounded mem
-    | some len => if w = Width.w1 then scanMemchr mem len else scanLoop mem len
+  let n := match length with      -- `if (length < 0)`: the generated test must tell the two cases apart
+    | none => if strUnbounded (-1) then scanUnbounded mem else .error .unmodelled
+    | some len =>
+      if strUnbounded (len : Int) then .error .unmodelled
+      else if w = Width.w1 then scanMemchr mem len else scanLoop mem len
   match n with
   | .ok k => .ok (mem.take k)
   | .error e => .error e
 
 /-- `Py_ssize_t length = maxlen; if (length < 0 && CT_ARRAY) length = get_array_length(cd);` -/
 def effLength (maxlen arrayLen : Option Nat) : Option Nat :=
-  match maxlen with
-  | some m => some m
-  | none => arrayLen
+  if strUseArrayLen (ctLengthInt maxlen) arrayLen.isSome then arrayLen else maxlen
 
 /-- units -> Python object, per item size. -/
 def toPython (w : Width) (u : Units) : Except Err PyVal :=
